@@ -83,9 +83,14 @@ inductive Auth
   | ctx (authenticated : Bool) (principal : Bytes)
   deriving Repr, DecidableEq
 
+/-- What the resolver returns, `(identity, ok, err)`, by the way the handler reads it: an error
+first (whatever identity came with it), then `ok`. -/
 inductive Res
+  /-- `ok = true`, `err = nil` -/
   | identity (principal tokenName : Bytes) (ttl : Int)
-  | unknown
+  /-- `ok = false`, `err = nil` — WHATEVER identity the resolver filled in alongside (an expired or
+  revoked row may still name its owner) -/
+  | unknown (principal tokenName : Bytes) (ttl : Int)
   /-- the resolver returned an error: an `AuthUnavailableError` with that `RetryAfter` field
   (`some n`), or any other error (`none`) -/
   | unavailable (hint : Option Int) (errText : Bytes)
@@ -162,7 +167,7 @@ def serve (cfg : Cfg) (caller : Bytes) (contentLength : Int) (body : Bytes)
       | .unavailable ra e =>
         { resp := .refusal .unavailable (some (retryAfterOf ra)), bodyRead := read, resolverCalls := [cred],
           log := [{ msg := .unavailable, principal := caller, digest := some (digest cred), err := some e }] }
-      | .unknown =>
+      | .unknown _ _ _ =>
         { resp := .refusal .unresolved none, bodyRead := read, resolverCalls := [cred],
           log := [{ msg := .unresolved, principal := caller, digest := some (digest cred) }] }
       | .identity p n ttl =>
